@@ -695,7 +695,7 @@ func L2() []Labeled {
 	// each before or after the publisher
 	{
 		pub := func(body bool) *App {
-			e := &Endpoint{Kind: "event", Name: "Topic"}
+			e := &Endpoint{Kind: "event", Name: "Topic", Attrs: []Attr{{Key: "evtag", Tag: true}, {Key: "k", Val: Str("v")}}}
 			if body {
 				e.Stmts = []*Stmt{{Kind: "action", Text: "announce"}, {Kind: "call", Target: []string{"Other"}, Endpoint: "Ep2"}}
 			}
